@@ -375,8 +375,47 @@ def wait_threads(kind, prior, traffic=0):
     sx.reach("threads-woken")
 
 
+def two_waiters(kinds):
+    """two threads wait on the same remote node (heartbeat / boot-up) while a third delivers one message, every
+    schedule at lock granularity: when both were parked in their wait at the moment the message arrived, both waits
+    return - a message is not used up by the first waiter that looks at it.  (A waiter that *starts* while another
+    one is being woken resets the shared flag: that interleaving is outside the claim.)"""
+    rig = Rig()
+    NmtError = sx.mod("canopen.nmt").NmtError
+    sched = sx.scheduler()
+    res, parked = {}, {}
+
+    def wait(kind, who):
+        try:
+            if kind == "b":
+                rig.master.wait_for_bootup(timeout=1)
+            else:
+                rig.master.wait_for_heartbeat(timeout=1)
+            res[who] = "ok"
+        except NmtError:
+            res[who] = "error"
+
+    def feeder():
+        for t in sched.threads:
+            parked[t.name] = (t.state == "waiting")
+        rig.inject(0x700 + NODE, sx.mkbytes([0]))          # a boot-up message matches both kinds of wait
+    sched.spawn(lambda: wait(kinds[1], "b"), "b")
+    sched.spawn(feeder, "feeder")
+    wait(kinds[0], "a")
+    sched.join()
+    sx.observe("res", [res.get("a"), res.get("b"), parked.get("main"), parked.get("b")])
+    if parked.get("main") and parked.get("b"):
+        sx.prove(res.get("a") == "ok" and res.get("b") == "ok",
+                 "a waiter that was parked when the message arrived failed with the NMT error",
+                 "C11/two-waiters/%s/missed" % kinds)
+        sx.reach("two-waiters-parked")
+    sx.reach("two-waiters")
+
+
 def jobs(tier):
     out = []
+    for kinds in ("hh", "hb", "bh", "bb"):
+        out.append(dict(func="two_waiters", params=dict(kinds=kinds)))
     for mod in (1, 0):
         out.append(dict(func="foreign_command_heartbeat", params=dict(modifiable=mod)))
     for form in (0, None):
@@ -421,7 +460,7 @@ META = dict(
     assumptions=["node id 5 (other node 9): the code is uniform in the node id",
                  "fake clock advances by the time-out on a wake-up without delivery"],
     stubs=["struct", "threading.Condition", "time", "can (unused: send_message replaced on the instance)", "logging"],
-    required_reach=["send_command", "state-name", "invalid-name", "foreign", "heartbeat", "heartbeat-other", "bootup",
+    required_reach=["two-waiters-parked", "send_command", "state-name", "invalid-name", "foreign", "heartbeat", "heartbeat-other", "bootup",
                     "history", "wait-hb", "wait-hb-timeout", "wait-boot", "wait-boot-timeout", "wait-boot-stream", "foreign-heartbeat", "node-id-from-od", "threads-woken", "threads-timeout"],
     limits=dict(quick=dict(), thorough=dict()),
     validate_every=dict(quick=5, thorough=20),
